@@ -72,7 +72,17 @@ impl BlobReader {
         let meta = self
             .read_bytes(header.meta_size() as usize)
             .with_context(|| "read record meta")?;
-        let meta = bincode::deserialize(&meta)?;
+        let meta: crate::Meta = bincode::deserialize(&meta)?;
+        // Deserialization ignores trailing bytes: meta that occupies less (or more) bytes than the header
+        // declares is corrupted, and writing it back would break the layout of the output blob
+        if bincode::serialized_size(&meta)? != header.meta_size() {
+            return Err(ToolsError::record_validation_error(format!(
+                "meta size mismatch: {} bytes in header, {} bytes deserialized",
+                header.meta_size(),
+                bincode::serialized_size(&meta)?
+            ))
+            .into());
+        }
 
         let data = self
             .read_bytes(header.data_size() as usize)
